@@ -146,8 +146,10 @@ func (ms *Modules) resolveIdentities() []error {
 	// Across all modules, read the identity values that have been extracted
 	// from them, and compile them into a "fully resolved" map that means that
 	// we can look them up based on the 'real' prefix of the module and the
-	// name of the identity.
-	for _, mod := range ms.Modules {
+	// name of the identity.  Two revisions of a module file their identities
+	// under the same names: visit the modules in the order of the names they
+	// are filed under, so that it is always the newest revision's that stay.
+	for _, mod := range sortedModules(ms.Modules) {
 		for _, i := range mod.Identities() {
 			keyName, r := newResolvedIdentity(mod, i)
 			ms.typeDict.identities.dict[keyName] = *r
